@@ -5,6 +5,7 @@
 import M4ri.Proto
 import M4ri.BMat
 import M4ri.Spec
+import M4ri.Mul
 namespace M4ri
 
 abbrev R := Except String
@@ -210,6 +211,61 @@ def runOpW (op : String) (a : Array Val) : R (Array Val × Option (Array Val)) :
     pure (both M (M.applyPRightTransTri P) (M.toB.sColSwaps P (List.range M.ncols) (fun i => min M.nrows i) 0))
   | _ => throw "unknown-op"
 
-def runOp (op : String) (a : Array Val) : R (Array Val × Option (Array Val)) := runOpW op a
+def argIsAlias (args : Array Val) (i k : Nat) : Bool :=
+  match args[i]? with | some (.alias j) => j == k | _ => false
+
+/-- destination handling shared by the product routes: `C0 = none` means the call allocates -/
+def prodResult (C0 : Option Mzd) (model spec : BMat) : Array Val × Option (Array Val) :=
+  match C0 with
+  | some C => (#[.mat (C.putB model)], some #[.mat (C.putB spec)])
+  | none => (#[.mat (Mzd.ofB model)], some #[.mat (Mzd.ofB spec)])
+
+open Mzd BMat in
+def runOpMul (op : String) (a : Array Val) : R (Array Val × Option (Array Val)) := do
+  -- common operand layout: C A B [param]
+  let A ← argMat a 1; let B ← argMat a 2
+  let Ab := A.toB; let Bb := B.toB
+  let C0 : Option Mzd ← if argIsNull a 0 then pure none else (do let C ← argMat a 0; pure (some C))
+  let Cb : BMat := match C0 with | some C => C.toB | none => BMat.zero A.nrows B.ncols
+  let dimsBad : Bool := match C0 with | some C => decide (C.nrows ≠ A.nrows ∨ C.ncols ≠ B.ncols) | none => false
+  let prod := Ab.mul Bb
+  let same := argIsAlias a 2 1
+  match op with
+  | "mul_naive" =>
+    if dimsBad then throw "die" else pure (prodResult C0 (mulNaive Cb Ab Bb true) prod)
+  | "addmul_naive" =>
+    if dimsBad then throw "die" else pure (prodResult C0 (mulNaive Cb Ab Bb false) (Cb.add prod))
+  | "mul_va" =>
+    let clear := (← argNat a 3) ≠ 0
+    pure (prodResult C0 (mulVa Cb Ab Bb clear) (if clear then prod else Cb.add prod))
+  | "mul_naive_t" =>
+    -- `_mzd_mul_naive(C, A, BT, clear)`: the third operand is already transposed
+    let clear := (← argNat a 3) ≠ 0
+    let p := Ab.mul Bb.transpose
+    pure (prodResult C0 (mulNaiveT Cb Ab Bb clear) (if clear then p else Cb.add p))
+  | "mul_m4rm" =>
+    let k ← argNat a 3
+    if A.ncols ≠ B.nrows ∨ dimsBad then throw "die" else pure (prodResult C0 (m4rm Cb Ab Bb k true) prod)
+  | "addmul_m4rm" =>
+    let k ← argNat a 3
+    if Cb.ncols = 0 ∨ Cb.nrows = 0 then pure (prodResult C0 Cb Cb) else
+    if A.ncols ≠ B.nrows ∨ dimsBad then throw "die" else
+      pure (prodResult C0 (m4rm Cb Ab Bb k false) (Cb.add prod))
+  | "mul" =>
+    let cutoff ← argInt a 3
+    if A.ncols ≠ B.nrows ∨ cutoff < 0 ∨ dimsBad then throw "die" else
+      let c := if cutoff = 0 then 4096 else cutoff.toNat
+      pure (prodResult C0 (mulTop 64 Cb Ab Bb c same) prod)
+  | "addmul" =>
+    let cutoff ← argInt a 3
+    if A.ncols ≠ B.nrows ∨ cutoff < 0 ∨ dimsBad then throw "die" else
+      let c := if cutoff = 0 then 4096 else cutoff.toNat
+      pure (prodResult C0 (addmulTop 64 Cb Ab Bb c same) (Cb.add prod))
+  | _ => throw "unknown-op"
+
+def runOp (op : String) (a : Array Val) : R (Array Val × Option (Array Val)) :=
+  match runOpW op a with
+  | .error "unknown-op" => runOpMul op a
+  | r => r
 
 end M4ri
